@@ -340,7 +340,9 @@ def run_groups(sel, tier, scratch, keep=False):
         sel = keep
     # longest first
     sel.sort(key=lambda g: -g.get('cost', g['timeout']))
-    with ThreadPoolExecutor(max_workers=JOBS) as ex:
+    # thorough tier contains the memory-hungry groups (64 KiB .. 1 MiB rings, 1100-byte path buffers): fewer at a time
+    jobs = JOBS if tier == 'quick' else min(JOBS, int(os.environ.get('VERIF_JOBS_THOROUGH', '5')))
+    with ThreadPoolExecutor(max_workers=jobs) as ex:
         futs = [ex.submit(run_group, g, woven, scratch) for g in sel]
         results = [f.result() for f in futs]
     return results + pre, rep, woven
